@@ -1145,26 +1145,18 @@ class Run:
             try:
                 drive(self.sync_ctx_body(sub, body, depth))
             except BaseException as exc:  # noqa: BLE001
+                # handed back by value and re-raised by the awaiting coroutine itself: asyncio would
+                # re-create TimeoutError / CancelledError instances, and a GeneratorExit delivered
+                # through a future is *thrown* into the task, which closes every inner coroutine
                 box['exc'] = exc
-                raise
             finally:
                 tls.frame = None
 
         tls.frame = None
         try:
             await asyncio.to_thread(job)
-        except BaseException as exc:  # noqa: BLE001
-            # asyncio re-creates TimeoutError / CancelledError instances when it copies a result from
-            # the executor future: carry the harness marks over to the new instance
-            orig = box.get('exc')
-            if orig is not None and exc is not orig and type(exc) is type(orig):
-                for attr in ('_sim_expected', '_sim_label'):
-                    if hasattr(orig, attr):
-                        try:
-                            setattr(exc, attr, getattr(orig, attr))
-                        except Exception:  # pragma: no cover
-                            pass
-            raise
+            if 'exc' in box:
+                raise box['exc']
         finally:
             tls.frame = fr
             if not self.aborting:
